@@ -22,6 +22,7 @@ import drv_precession
 import drv_sunearth
 import drv_geocentric
 import drv_api
+import drv_growth
 
 YMIN, YMAX = -4712, 6000
 
@@ -739,4 +740,24 @@ def plan_C20(tier, seed):
                      "VSOP87/periodic-term tables are digested every 40 calls (cost), the small tables and class attributes every call"])
 
 
-PLANS = {"C20": plan_C20, "C09": plan_C09, "C08": plan_C08, "C06": plan_C06, "C05": plan_C05, "C18": plan_C18, "C11": plan_C11, "C07": plan_C07, "C14": plan_C14, "C15": plan_C15, "C13": plan_C13, "C12": plan_C12, "C17": plan_C17, "C02": plan_C02, "C03": plan_C03, "C04": plan_C04, "C10": plan_C10, "C01": plan_C01, "C16": plan_C16, "C19": plan_C19}
+def _nt_growth(ev):
+    return (ev["k"], json.dumps({k2: v for k2, v in ev.items() if k2.endswith("f") or k2 in ("n", "pl")}, sort_keys=True))
+
+
+def plan_GROWTH(tier, seed):
+    T = ("Trace_Growth", "Trace.cfg")
+    k = 1 if tier == "quick" else 10
+    sh = [Shard("refraction", drv_growth.gen_refraction, dict(seed=seed, n=2000 * k), *T),
+          Shard("carrington", drv_growth.gen_carrington, dict(seed=seed, n=1000 * k), *T),
+          Shard("views", drv_growth.gen_views, dict(seed=seed, n=2000 * k), *T),
+          Shard("magnitude", drv_growth.gen_magnitude, dict(seed=seed, n=1500 * k), *T),
+          Shard("moonk", drv_growth.gen_moonk, dict(seed=seed, n=300 * k), *T),
+          Shard("jsat", drv_growth.gen_jsat, dict(seed=seed, n=400 * k), *T),
+          Shard("physical", drv_growth.gen_physical, dict(seed=seed, n=400 * k), *T)]
+    return dict(mc=[], shards=sh, level="model_checking", exhaustive=False, nontrivial=_nt_growth,
+                rule="growth suite (not a listed property): refraction pair, Carrington rotations, Epoch/Angle numeric views, magnitude "
+                     "inverse-square law, Moon illuminated fraction at the library's own new/full moons, Galilean satellite radii and continuity",
+                assumptions=["bounds are measured on the unchanged tree with a margin of at least 3 (DESIGN section 6, rule 2)"])
+
+
+PLANS = {"GROWTH": plan_GROWTH, "C20": plan_C20, "C09": plan_C09, "C08": plan_C08, "C06": plan_C06, "C05": plan_C05, "C18": plan_C18, "C11": plan_C11, "C07": plan_C07, "C14": plan_C14, "C15": plan_C15, "C13": plan_C13, "C12": plan_C12, "C17": plan_C17, "C02": plan_C02, "C03": plan_C03, "C04": plan_C04, "C10": plan_C10, "C01": plan_C01, "C16": plan_C16, "C19": plan_C19}
